@@ -68,6 +68,7 @@ type Opts struct {
 	FontBad    bool // font calls with several bad properties
 	Comments   bool
 	NoPrintAll bool
+	NoShadow   bool
 }
 
 type variable struct {
@@ -589,12 +590,54 @@ func (g *G) closeScope() {
 	}
 }
 
+// shadowLate ends a scope by first using a variable of an enclosing scope and
+// then declaring a local of the same name with a DIFFERENT type. Whatever runs
+// later (the next loop iteration, the next event, the code after the block)
+// must still see the outer variable with its own type.
+func (g *G) shadowLate() {
+	if g.o.NoShadow || !g.r.Chance(0.25) || len(g.scopes) < 2 {
+		return
+	}
+	cur := g.scopes[len(g.scopes)-1]
+	var outer []*variable
+	for _, sc := range g.scopes[:len(g.scopes)-1] {
+		for _, v := range sc {
+			dup := false
+			for _, c := range cur {
+				if c.name == v.name {
+					dup = true
+				}
+			}
+			if !dup && !v.ro {
+				outer = append(outer, v)
+			}
+		}
+	}
+	if len(outer) == 0 {
+		return
+	}
+	ov := outer[g.r.Intn(len(outer))]
+	ov.used = true
+	nt := []*Ty{Num, Str, Bool}[g.r.Intn(3)]
+	if nt.Eq(ov.ty) {
+		nt = []*Ty{Str, Bool, Num}[g.r.Intn(3)]
+		if nt.Eq(ov.ty) {
+			return
+		}
+	}
+	g.emit("print \"pre\" %s", ov.name)
+	g.emit("%s := %s", ov.name, g.lit(nt, 0))
+	g.emit("print \"shadowed\" %s (typeof %s)", ov.name, ov.name)
+	g.declare(&variable{name: ov.name, ty: nt, used: true, ro: true})
+}
+
 func (g *G) block(depth int, n int) {
 	g.indent++
 	g.push()
 	for i := 0; i < n; i++ {
 		g.stmt(depth)
 	}
+	g.shadowLate()
 	g.closeScope()
 	g.indent--
 }
@@ -808,6 +851,7 @@ func (g *G) forStmt(depth int) {
 	for i := 0; i < n; i++ {
 		g.stmt(depth + 1)
 	}
+	g.shadowLate()
 	g.closeScope()
 	g.indent--
 	g.inLoop--
@@ -865,6 +909,8 @@ func (g *G) funcDef(f *fn) {
 	}
 	if f.ret != nil {
 		g.emit("return %s", g.expr(f.ret, 2))
+	} else if !f.pure {
+		g.shadowLate()
 	}
 	g.indent--
 	g.pop()
@@ -942,6 +988,7 @@ func (g *G) handler(name string, withParams bool, underscore int) {
 	if !g.o.NoPrintAll {
 		g.printGlobals()
 	}
+	g.shadowLate()
 	g.indent--
 	g.pop()
 	g.inHandler = false
